@@ -1,6 +1,6 @@
 //! Construction of the combinator under test ("root") for every family x container.
 
-use crate::leaf::{harvest_out, Harvest, Out, SimFut, SimStream, Val};
+use crate::leaf::{harvest_out, Harvest, Out, PlainFut, SimFut, SimStream, Val};
 use crate::world::{Family, NodeId, Res};
 use futures_concurrency::future::{FutureExt as _, Join, Race, RaceOk, TryJoin};
 use futures_concurrency::stream::{Chain, Merge, StreamExt as _, Zip};
@@ -30,7 +30,7 @@ impl Cont {
     }
 }
 
-pub const ARRAY_SIZES: [usize; 10] = [0, 1, 2, 3, 4, 5, 8, 12, 23, 65];
+pub const ARRAY_SIZES: [usize; 13] = [0, 1, 2, 3, 4, 5, 8, 12, 23, 65, 31, 256, 257];
 
 pub trait GroupOps {
     fn insert(&mut self, node: NodeId) -> usize;
@@ -130,6 +130,12 @@ fn f(n: NodeId) -> F {
 fn tf(n: NodeId) -> TF {
     SimFut::new(n)
 }
+fn pf(n: NodeId) -> PlainFut<Val> {
+    PlainFut::new(n)
+}
+fn ptf(n: NodeId) -> PlainFut<Result<Val, Val>> {
+    PlainFut::new(n)
+}
 fn st(n: NodeId) -> SimStream {
     SimStream::new(n)
 }
@@ -167,6 +173,9 @@ macro_rules! with_array {
             12 => { let $t: [_; 12] = core::array::from_fn(|i| $mk($k[i])); $body }
             23 => { let $t: [_; 23] = core::array::from_fn(|i| $mk($k[i])); $body }
             65 => { let $t: [_; 65] = core::array::from_fn(|i| $mk($k[i])); $body }
+            31 => { let $t: [_; 31] = core::array::from_fn(|i| $mk($k[i])); $body }
+            256 => { let $t: [_; 256] = core::array::from_fn(|i| $mk($k[i])); $body }
+            257 => { let $t: [_; 257] = core::array::from_fn(|i| $mk($k[i])); $body }
             other => panic!("harness: unsupported array length {other}"),
         }
     };
@@ -180,8 +189,32 @@ pub fn tuple_min(fam: Family) -> usize {
 }
 
 /// Build a flat combinator of `fam` over leaves `k` in container `cont`.
-pub fn build_flat(fam: Family, cont: Cont, k: &[NodeId]) -> Box<dyn Root> {
+pub fn build_flat(fam: Family, cont: Cont, k: &[NodeId], plain: bool) -> Box<dyn Root> {
     let n = k.len();
+    if plain {
+        // children without drop glue (future families, tuple arity / array length as for the tracked handles)
+        return match (fam, cont) {
+            (Family::Join, Cont::Tuple) if n == 0 => FutRoot::new(Join::join(())),
+            (Family::Join, Cont::Tuple) => with_tuple!(n, k, pf, t => FutRoot::new(Join::join(t)) as Box<dyn Root>),
+            (Family::Join, Cont::Array) => with_array!(n, k, pf, t => FutRoot::new(Join::join(t)) as Box<dyn Root>),
+            #[cfg(not(feature = "cfg-nostd"))]
+            (Family::Join, Cont::Vec) => FutRoot::new(Join::join(k.iter().map(|&i| pf(i)).collect::<Vec<_>>())),
+            (Family::TryJoin, Cont::Tuple) if n == 0 => FutRoot::new(TryJoin::try_join(())),
+            (Family::TryJoin, Cont::Tuple) => with_tuple!(n, k, ptf, t => FutRoot::new(TryJoin::try_join(t)) as Box<dyn Root>),
+            (Family::TryJoin, Cont::Array) => with_array!(n, k, ptf, t => FutRoot::new(TryJoin::try_join(t)) as Box<dyn Root>),
+            #[cfg(not(feature = "cfg-nostd"))]
+            (Family::TryJoin, Cont::Vec) => FutRoot::new(TryJoin::try_join(k.iter().map(|&i| ptf(i)).collect::<Vec<_>>())),
+            (Family::Race, Cont::Tuple) => with_tuple!(n, k, pf, t => FutRoot::new(Race::race(t)) as Box<dyn Root>),
+            (Family::Race, Cont::Array) => with_array!(n, k, pf, t => FutRoot::new(Race::race(t)) as Box<dyn Root>),
+            #[cfg(not(feature = "cfg-nostd"))]
+            (Family::Race, Cont::Vec) => FutRoot::new(Race::race(k.iter().map(|&i| pf(i)).collect::<Vec<_>>())),
+            (Family::RaceOk, Cont::Tuple) => with_tuple!(n, k, ptf, t => AggRoot::new(RaceOk::race_ok(t)) as Box<dyn Root>),
+            (Family::RaceOk, Cont::Array) => with_array!(n, k, ptf, t => AggRoot::new(RaceOk::race_ok(t)) as Box<dyn Root>),
+            #[cfg(not(feature = "cfg-nostd"))]
+            (Family::RaceOk, Cont::Vec) => AggRoot::new(RaceOk::race_ok(k.iter().map(|&i| ptf(i)).collect::<Vec<_>>())),
+            (fam, cont) => panic!("harness: no plain-handle builder for {:?} x {:?} (n={})", fam, cont, n),
+        };
+    }
     match (fam, cont) {
         // ---------------- join
         (Family::Join, Cont::Tuple) if n == 0 => FutRoot::new(Join::join(())),
